@@ -905,7 +905,10 @@ fn gen_doc(rng: &mut Rng, target: RTarget) -> String {
         // every line of the window is deeply indented (nested mappings, one level per line), and the error
         // sits at or in front of the indentation: a renderer that trims "useless" leading white space must
         // still put the marker under the reported column
-        let depth = rng.range(22, 60);
+        // (from 8 levels on: the renderer the crate uses for most windows has two rules that cut shared
+        // indentation, one for more than about 26 columns of it, one for any window with a line wider than its
+        // 140-column terminal)
+        let depth = rng.range(8, 60);
         let mut s = String::new();
         for i in 1..=depth {
             s.push_str(&format!("{}k{i}:\n", " ".repeat(i - 1)));
@@ -917,7 +920,7 @@ fn gen_doc(rng: &mut Rng, target: RTarget) -> String {
         for j in 1..=n {
             let i = line + 1;
             if j == bad {
-                match rng.below(5) {
+                match rng.below(6) {
                     // a quoted scalar continued on a tab-indented line: "tab cannot be used as indentation", column 1
                     0 => {
                         // (as many tabs as it takes to reach the indentation: every line of the window is then
@@ -943,13 +946,25 @@ fn gen_doc(rng: &mut Rng, target: RTarget) -> String {
                         s.push_str(&format!("\x1b{}k{i}: 1\n", " ".repeat(depth.saturating_sub(1))));
                         line += 1;
                     }
+                    // an error behind wide and combining characters on its line
+                    4 => {
+                        let wide = *rng.pick(&["日本語日本語", "e\u{301}e\u{301}e\u{301}e\u{301}e\u{301}e\u{301}", "😀😀😀", "wide日本語 text"]);
+                        s.push_str(&format!("{ind}k{i}: \"{wide}\" oops\n"));
+                        line += 1;
+                    }
                     _ => {
                         s.push_str(&format!("{ind}k{i}: [1, 2\n"));
                         line += 1;
                     }
                 }
             } else {
-                s.push_str(&format!("{ind}k{i}: {}\n", rng.below(100)));
+                match rng.below(6) {
+                    // a line that is short in characters and wide in columns (tabs inside a quoted scalar)
+                    0 => s.push_str(&format!("{ind}k{i}: \"{}\"\n", "\t".repeat(rng.range(30, 50)))),
+                    // wide characters in a sibling line
+                    1 => s.push_str(&format!("{ind}k{i}: 日本語日本語{}\n", rng.below(100))),
+                    _ => s.push_str(&format!("{ind}k{i}: {}\n", rng.below(100))),
+                }
                 line += 1;
                 // now and then a blank (or blanks-only) line between the entries: it is a line of the window
                 if rng.chance(1, 4) {
@@ -1009,6 +1024,17 @@ fn gen_doc(rng: &mut Rng, target: RTarget) -> String {
                 }
             }
             RTarget::MapInt | RTarget::Strict => {
+                if is_bad && i == n && target == RTarget::MapInt && rng.chance(1, 2) {
+                    // the failing value is a block scalar of very many short lines (the last entry of the
+                    // document, so that the line numbering of the keys is not disturbed): its span covers
+                    // some 70 KB, none of its lines is long
+                    let lines = rng.range(850, 1000);
+                    s.push_str(&format!("{key}: |{eol}"));
+                    for _ in 0..lines {
+                        s.push_str(&format!("  {}{eol}", "QUJDREVGR0hJSktMTU5PUFFSU1RVVldYWVo=".repeat(2)));
+                    }
+                    continue;
+                }
                 if is_bad {
                     let v = match rng.below(8) {
                         0 => format!("\"{}\"", rng.pick(NASTY_ESCAPED)),
